@@ -88,6 +88,18 @@ theorem fanout_counter_is_confined_to_the_collector :
   decide
 
 
+set_option maxRecDepth 8192 in
+/-- **no method is called on a shared struct field in the parallel regions except the mutex's own**: a method with a pointer
+    receiver may mutate the field it is called on (a `strings.Builder`, a counter type, a cache); the only such calls of the
+    traversal are `t.mu.Lock` / `t.mu.Unlock` in the three sections, and the fan-out has none -/
+theorem parallel_field_method_calls_are_the_mutex :
+    travParallelFieldMethodCalls.map (fun (f, c, _) => (f, c)) =
+      [("graph.traversal.ready", "t.mu.Lock"), ("graph.traversal.ready", "t.mu.Unlock"),
+       ("graph.traversal.enter", "t.mu.Lock"), ("graph.traversal.enter", "t.mu.Unlock"),
+       ("graph.traversal.done", "t.mu.Lock"), ("graph.traversal.done", "t.mu.Unlock")] ∧
+    fanoutParallelFieldMethodCalls = [] := by
+  decide
+
 /-! ### what the workers only READ is frozen before the first goroutine exists -/
 
 set_option maxRecDepth 8192 in
